@@ -37,6 +37,7 @@ package main
 
 import (
 	"bytes"
+	"context"
 	"fmt"
 	"math/rand"
 	"os"
@@ -91,7 +92,7 @@ func c09ParseConc(f []string) (g, r int, subs []c09Sub, ok bool) {
 	g, e1 := strconv.Atoi(f[1])
 	r, e2 := strconv.Atoi(f[2])
 	n, e3 := strconv.Atoi(f[3])
-	if e1 != nil || e2 != nil || e3 != nil || g < 1 || g > 64 || r < 1 || r > 200 || n < 1 || n > 32 || len(f) != 4+5*n {
+	if e1 != nil || e2 != nil || e3 != nil || g < 1 || g > 64 || r < 1 || r > 2000 || n < 1 || n > 32 || len(f) != 4+5*n {
 		return
 	}
 	for i := 0; i < n; i++ {
@@ -120,24 +121,107 @@ func c09ParseConc(f []string) (g, r int, subs []c09Sub, ok bool) {
 	return g, r, subs, true
 }
 
+// c09ExecConc: the concurrent phase runs in a CHILD process (this binary, `C09 exec`, the case on stdin): what the Go
+// runtime answers to some shared-state regressions ("fatal error: concurrent map writes", a corrupted heap) kills the
+// process and cannot be recovered; the child dies, the parent reports the case (conc.crash) and goes on.
 func c09ExecConc(f []string) (string, []Fail) {
+	if _, _, _, ok := c09ParseConc(f); !ok {
+		return "bad-op", nil
+	}
+	if os.Getenv("VERIF_C09_CHILD") != "" || os.Getenv("VERIF_C09_RACE") != "" {
+		return c09ConcHere(f, true)
+	}
+	exe, err := os.Executable()
+	if err != nil {
+		stat("conc:in-process (no executable path)")
+		return c09ConcHere(f, true)
+	}
+	ctx, cancel := context.WithTimeout(context.Background(), 150*time.Second*watchdogScale())
+	defer cancel()
+	cmd := exec.CommandContext(ctx, exe, "C09", "exec")
+	cmd.Stdin = strings.NewReader(strings.Join(f, " ") + "\n")
+	cmd.Env = append(os.Environ(), "VERIF_C09_CHILD=1")
+	var stdout, stderr bytes.Buffer
+	cmd.Stdout, cmd.Stderr = &stdout, &stderr
+	runErr := cmd.Run()
+	res, got := "", false
+	var fails []Fail
+	for _, l := range strings.Split(stdout.String(), "\n") {
+		w := strings.Split(l, "\t")
+		switch {
+		case w[0] == "C" && len(w) >= 3:
+			res, got = w[2], true
+		case w[0] == "F" && len(w) >= 4:
+			fails = append(fails, Fail{w[1], w[3]})
+		case w[0] == "S" && len(w) == 3 && !strings.HasPrefix(w[1], "op:"):
+			if n, err := strconv.Atoi(w[2]); err == nil {
+				for ; n > 0; n-- {
+					stat(w[1])
+				}
+			}
+		}
+	}
+	if got && runErr == nil {
+		stat("conc:child ok")
+		return res, fails
+	}
+	// the child died: the answers of the calls run alone are computed here, the death is the failure
+	stat("conc:child DIED")
+	res, fails = c09ConcHere(f, false)
+	what := []string{}
+	for _, l := range strings.Split(stderr.String(), "\n") {
+		t := strings.TrimSpace(l)
+		if strings.HasPrefix(t, "fatal error:") || strings.HasPrefix(t, "panic:") || strings.HasPrefix(t, "unexpected fault") ||
+			strings.HasPrefix(t, "SIG") || (strings.Contains(t, "/pkg/obialign/") && strings.Contains(t, ".go:")) {
+			if k := strings.LastIndex(t, "/pkg/"); k >= 0 && strings.Contains(t, ".go:") {
+				t = t[k+1:]
+			}
+			if len(what) < 4 {
+				what = append(what, t)
+			}
+		}
+	}
+	if ctx.Err() != nil {
+		what = append(what, "no answer within the time limit")
+	}
+	fails = append(fails, Fail{"conc.crash", fmt.Sprintf("the process running the calls concurrently died (%v): %s", runErr, strings.Join(what, " | "))})
+	return res, fails
+}
+
+// c09ConcHere: the calls alone, then (concurrent = true) the same calls from g goroutines, in this process.
+func c09ConcHere(f []string, concurrent bool) (string, []Fail) {
 	g, r, subs, ok := c09ParseConc(f)
 	if !ok {
 		return "bad-op", nil
 	}
 	var fails []Fail
 	res := guardT(120*time.Second, func() string {
-		// the shared objects: built once, read by every goroutine
-		sa := make([]*obiseq.BioSequence, len(subs))
-		sb := make([]*obiseq.BioSequence, len(subs))
-		for i, s := range subs {
-			sa[i] = obiseq.NewBioSequence(fmt.Sprintf("a%d", i), append([]byte{}, s.a...), "")
-			sb[i] = obiseq.NewBioSequence(fmt.Sprintf("b%d", i), append([]byte{}, s.b...), "")
-			if !bytes.Equal(sa[i].Sequence(), s.a) || !bytes.Equal(sb[i].Sequence(), s.b) {
-				return "bad-op" // not the stored form
+		// the shared objects: built once, read by every goroutine. Set 0 serves the calls run alone; the concurrent
+		// phase gets its own sets (one per round while the copies fit in 8 MB, at least 3, then the first again): as in
+		// the commands, the workers meet pairs that no call has seen before (a memo warmed by the alone phase would
+		// hide what it does with a new pair)
+		bytesPerSet := 1
+		for _, s := range subs {
+			bytesPerSet += len(s.a) + len(s.b)
+		}
+		nsets := 1 + min(r, max(3, (8<<20)/bytesPerSet))
+		if !concurrent {
+			nsets = 1
+		}
+		sa := make([][]*obiseq.BioSequence, nsets)
+		sb := make([][]*obiseq.BioSequence, nsets)
+		for t := 0; t < nsets; t++ {
+			sa[t] = make([]*obiseq.BioSequence, len(subs))
+			sb[t] = make([]*obiseq.BioSequence, len(subs))
+			for i, s := range subs {
+				sa[t][i] = obiseq.NewBioSequence(fmt.Sprintf("a%d", i), append([]byte{}, s.a...), "")
+				sb[t][i] = obiseq.NewBioSequence(fmt.Sprintf("b%d", i), append([]byte{}, s.b...), "")
+				if !bytes.Equal(sa[t][i].Sequence(), s.a) || !bytes.Equal(sb[t][i].Sequence(), s.b) {
+					return "bad-op" // not the stored form
+				}
 			}
 		}
-		call := func(i int, own *[]uint64) (out string) {
+		call := func(t, i int, own *[]uint64) (out string) {
 			defer func() {
 				if rec := recover(); rec != nil {
 					if _, isFatal := rec.(fatalExit); isFatal {
@@ -154,58 +238,73 @@ func c09ExecConc(f []string) (string, []Fail) {
 			}
 			switch s.kind {
 			case "lcs":
-				sc, l := obialign.FastLCSScore(sa[i], sb[i], s.e, buf)
+				sc, l := obialign.FastLCSScore(sa[t][i], sb[t][i], s.e, buf)
 				return fmt.Sprintf("%d %d", sc, l)
 			case "egf":
-				sc, l, end := obialign.FastLCSEGFScore(sa[i], sb[i], s.e, buf)
+				sc, l, end := obialign.FastLCSEGFScore(sa[t][i], sb[t][i], s.e, buf)
 				return fmt.Sprintf("%d %d %d", sc, l, end)
 			default:
-				v, pos, a1, a2 := obialign.D1Or0(sa[i], sb[i])
+				v, pos, a1, a2 := obialign.D1Or0(sa[t][i], sb[t][i])
 				return fmt.Sprintf("%d %d %d %d", v, pos, a1, a2)
 			}
 		}
 		alone := make([]string, len(subs))
 		for i := range subs {
-			alone[i] = call(i, nil)
+			alone[i] = call(0, i, nil)
 			if strings.HasPrefix(alone[i], "panic") || alone[i] == "fatal" {
 				fails = append(fails, Fail{"conc.alone-panic", fmt.Sprintf("sub-case %d (%s) run alone: %s", i, subs[i], alone[i])})
 				alone[i] = "panic"
 			}
 		}
-		// the same calls, from g goroutines released together; goroutine k starts at sub-case k
+		if !concurrent {
+			return strings.Join(alone, " ; ")
+		}
+		// the same calls, from g goroutines released together; goroutine k starts at sub-case k; in the odd rounds
+		// every call is made twice in a row (a worker may well meet the same pair again). Each goroutine keeps its
+		// own tally (no lock between two calls: nothing but the code under test orders the goroutines).
 		type bad struct {
 			i, k, round int
 			got         string
 		}
-		var mu sync.Mutex
-		var first *bad
-		nbad, npanic, total := 0, 0, 0
-		kinds := map[string]int{}
+		type tally struct {
+			first               *bad
+			nbad, npanic, total int
+			kinds               map[string]int
+		}
+		tallies := make([]tally, g)
+		want := 0
+		for round := 0; round < r; round++ {
+			want += len(subs) * (1 + round%2)
+		}
+		want *= g
 		start := make(chan struct{})
 		var wg sync.WaitGroup
 		for k := 0; k < g; k++ {
 			wg.Add(1)
 			go func(k int) {
 				defer wg.Done()
+				tl := &tallies[k]
+				tl.kinds = map[string]int{}
 				var matrix []uint64 // the scratch of this worker, kept across its calls
 				<-start
 				for round := 0; round < r; round++ {
+					t := 1 + round%(nsets-1)
 					for j := range subs {
 						i := (j + k + round*3) % len(subs)
-						got := call(i, &matrix)
-						mu.Lock()
-						total++
-						if got != alone[i] {
-							nbad++
-							if got == "fatal" || strings.HasPrefix(got, "panic") {
-								npanic++
-							}
-							kinds[subs[i].kind]++
-							if first == nil {
-								first = &bad{i, k, round, got}
+						for rep := 0; rep <= round%2; rep++ {
+							got := call(t, i, &matrix)
+							tl.total++
+							if got != alone[i] {
+								tl.nbad++
+								if got == "fatal" || strings.HasPrefix(got, "panic") {
+									tl.npanic++
+								}
+								tl.kinds[subs[i].kind]++
+								if tl.first == nil {
+									tl.first = &bad{i, k, round, got}
+								}
 							}
 						}
-						mu.Unlock()
 					}
 				}
 			}(k)
@@ -214,6 +313,21 @@ func c09ExecConc(f []string) (string, []Fail) {
 		close(start)
 		wg.Wait()
 		el := time.Since(t0)
+		var first *bad
+		nbad, npanic, total := 0, 0, 0
+		kinds := map[string]int{}
+		for k := range tallies {
+			tl := &tallies[k]
+			nbad, npanic, total = nbad+tl.nbad, npanic+tl.npanic, total+tl.total
+			for kd, n := range tl.kinds {
+				kinds[kd] += n
+			}
+			if first == nil || (tl.first != nil && tl.first.round < first.round) {
+				if tl.first != nil {
+					first = tl.first
+				}
+			}
+		}
 		stat(fmt.Sprintf("conc:g%d r%d", g, r))
 		stat(fmt.Sprintf("conc:sub-cases-%d", len(subs)))
 		for _, s := range subs {
@@ -235,14 +349,17 @@ func c09ExecConc(f []string) (string, []Fail) {
 			stat("conc:overlap-window >= 50 ms")
 		}
 		// the shared sequences must come out as they went in
-		for i, s := range subs {
-			if !bytes.Equal(sa[i].Sequence(), s.a) || !bytes.Equal(sb[i].Sequence(), s.b) {
-				fails = append(fails, Fail{"conc.input-modified", fmt.Sprintf("sub-case %d (%s): a shared sequence was modified by the calls", i, s)})
-				break
+	modified:
+		for t := range sa {
+			for i, s := range subs {
+				if !bytes.Equal(sa[t][i].Sequence(), s.a) || !bytes.Equal(sb[t][i].Sequence(), s.b) {
+					fails = append(fails, Fail{"conc.input-modified", fmt.Sprintf("sub-case %d (%s): a shared sequence was modified by the calls", i, s)})
+					break modified
+				}
 			}
 		}
-		if total != g*r*len(subs) {
-			fails = append(fails, Fail{"conc.panic", fmt.Sprintf("%d of %d concurrent calls did not finish", g*r*len(subs)-total, g*r*len(subs))})
+		if total != want {
+			fails = append(fails, Fail{"conc.panic", fmt.Sprintf("%d of %d concurrent calls did not finish", want-total, want)})
 		}
 		if first != nil {
 			sig := "conc.differs"
@@ -258,37 +375,46 @@ func c09ExecConc(f []string) (string, []Fail) {
 	return res, fails
 }
 
-// c09GenConc — called LAST by Gen. Every case mixes: bounded FastLCSScore on the worker buffer (obiclean / obitag:
-// long sequences, narrow band), FastLCSScore with nil buffer (obiconsensus / obicleandb), one or two calls without
-// bound (obilandmark / obigeomtag: the whole matrix), FastLCSEGFScore with a real overhang (end > 0) on both kinds
-// of buffer, D1Or0 on long sequences whose difference sits in the middle (both scans run far), IUPAC codes in some.
+// c09GenConc — called LAST by Gen. Three flavours of cases:
+//
+//	mixed : bounded FastLCSScore on the worker buffer (obiclean / obitag: long sequences, narrow band) and with nil
+//	        buffer (obiconsensus / obicleandb), within and beyond the bound, one or two calls without bound
+//	        (obilandmark / obigeomtag: the whole matrix), FastLCSEGFScore with real overhangs (end > 0) on both kinds
+//	        of buffer, D1Or0 on long sequences, IUPAC codes in some;
+//	d1    : D1Or0 only, 10000..30000 bases, the difference in the middle third (both scans run far), many rounds -
+//	        a D1Or0 call is short, it overlaps another one only when the goroutines do nothing else;
+//	egf   : FastLCSEGFScore only, long free overhangs on the right (the state pend / end is live for long);
+//	short : sequences of 6..40 bases, hundreds of rounds: entry / exit of a call weigh as much as its body.
 func c09GenConc(rng *rand.Rand, tier string, emit func(string)) {
-	ncase, g, r, scale := 4, 8, 6, 1
+	flavours := []string{"mixed", "d1", "egf", "mixed", "short", "mixed"}
+	g, scale := 8, 1
 	if tier == "thorough" {
-		ncase, g, r, scale = 10, 16, 10, 2
+		flavours = []string{"mixed", "d1", "egf", "mixed", "short", "mixed", "egf", "mixed", "d1", "mixed", "short", "mixed", "egf", "mixed"}
+		g, scale = 16, 2
 	}
 	hexsub := func(kind, buf string, e int, a, b []byte) string {
 		return fmt.Sprintf(" %s %s %d %s %s", kind, buf, e, hx(a), hx(b))
 	}
-	for c := 0; c < ncase; c++ {
+	bufs := []string{"w", "n"}
+	for c, flavour := range flavours {
 		var subs []string
 		iu := []int{0, 0, 20, 8}[rng.Intn(4)]
-		// bounded, worker buffer / nil buffer, alternately; different lengths and bounds so that the bands differ
-		nb := 4 + rng.Intn(3)
-		for i := 0; i < nb; i++ {
+		bounded := func(i int) {
+			// different lengths and bounds so that the bands (and the buffer geometry) differ
 			la := scale * (800 + rng.Intn(2400))
 			e := 1 + rng.Intn(14)
 			a := c09RandSeq(rng, la, iu)
-			k := rng.Intn(e + 3) // within and beyond the bound
+			k := rng.Intn(e + 1)
+			if rng.Intn(4) == 0 {
+				k = e + 1 + rng.Intn(4) // beyond the bound
+			}
 			b := c09Mutate(rng, a, k, iu)
 			if rng.Intn(2) == 0 {
 				a, b = b, a
 			}
-			subs = append(subs, hexsub("lcs", []string{"w", "n"}[i%2], e, a, b))
+			subs = append(subs, hexsub("lcs", bufs[i%2], e, a, b))
 		}
-		// no bound: the whole matrix
-		nu := 1 + rng.Intn(2)
-		for i := 0; i < nu; i++ {
+		unbounded := func(i int) {
 			la := 150 + rng.Intn(200*scale)
 			a := c09RandSeq(rng, la, iu)
 			var b []byte
@@ -297,31 +423,31 @@ func c09GenConc(rng *rand.Rand, tier string, emit func(string)) {
 			} else {
 				b = c09RandSeq(rng, 100+rng.Intn(200), iu)
 			}
-			subs = append(subs, hexsub("lcs", []string{"n", "w"}[(i+c)%2], -1, a, b))
+			subs = append(subs, hexsub("lcs", bufs[(i+c)%2], -1, a, b))
 		}
-		// end-gap-free: the shorter sequence is an edited factor of the longer one: free overhangs, end > 0
-		ne := 2 + rng.Intn(2)
-		for i := 0; i < ne; i++ {
+		egf := func(i int, maxOver int) {
+			// the shorter sequence is an edited factor of the longer one: free overhangs, end > 0
 			la := scale * (300 + rng.Intn(900))
 			a := c09RandSeq(rng, la, iu)
 			lo := rng.Intn(40)
-			hi := la - rng.Intn(40)
+			hi := la - rng.Intn(maxOver)
 			e := 1 + rng.Intn(8)
 			b := c09Mutate(rng, a[lo:hi], rng.Intn(e+2), iu)
-			if i == ne-1 && rng.Intn(2) == 0 {
+			if i%4 == 3 { // no bound: the whole matrix, the last row is live during the whole second half
 				e = -1
 				a = a[:200+rng.Intn(100)]
-				b = c09Mutate(rng, a[rng.Intn(30):len(a)-rng.Intn(30)], rng.Intn(6), iu)
+				b = c09Mutate(rng, a[rng.Intn(30):len(a)-rng.Intn(60)], rng.Intn(6), iu)
 			}
 			if rng.Intn(2) == 0 {
 				a, b = b, a
 			}
-			subs = append(subs, hexsub("egf", []string{"n", "w"}[i%2], e, a, b))
+			subs = append(subs, hexsub("egf", bufs[(i+1)%2], e, a, b))
 		}
-		// D1Or0: long, the difference in the middle (or none, or two)
-		nd := 2 + rng.Intn(2)
-		for i := 0; i < nd; i++ {
-			la := scale * (4000 + rng.Intn(12000))
+		d1 := func(minLen, spanLen int) {
+			la := scale * (minLen + rng.Intn(spanLen))
+			if la > 38000 {
+				la = 38000
+			}
 			a := c09RandSeq(rng, la, 0)
 			b := append([]byte{}, a...)
 			p := la/3 + rng.Intn(la/3)
@@ -343,12 +469,62 @@ func c09GenConc(rng *rand.Rand, tier string, emit func(string)) {
 			}
 			subs = append(subs, hexsub("d1", "-", 0, a, b))
 		}
+		r := 8
+		switch flavour {
+		case "mixed":
+			for i, n := 0, 4+rng.Intn(3); i < n; i++ {
+				bounded(i)
+			}
+			for i, n := 0, 1+rng.Intn(2); i < n; i++ {
+				unbounded(i)
+			}
+			for i, n := 0, 2+rng.Intn(2); i < n; i++ {
+				egf(i+rng.Intn(4), 40)
+			}
+			for i, n := 0, 2+rng.Intn(2); i < n; i++ {
+				d1(4000, 12000)
+			}
+		case "d1":
+			iu = 0
+			for i, n := 0, 6+rng.Intn(3); i < n; i++ {
+				d1(10000, 10000)
+			}
+			r = 60
+		case "egf":
+			for i, n := 0, 8+rng.Intn(3); i < n; i++ {
+				egf(i, 250)
+			}
+			r = 6
+		case "short":
+			// calls of a few hundred nanoseconds, many rounds: what a call does on entry and on exit (publishing a
+			// result, taking / releasing something shared) is then a large part of it
+			for i, n := 0, 10+rng.Intn(4); i < n; i++ {
+				a := c09RandSeq(rng, 6+rng.Intn(30), iu)
+				b := c09Mutate(rng, a, rng.Intn(4), iu)
+				if rng.Intn(2) == 0 {
+					a, b = b, a
+				}
+				switch i % 5 {
+				case 0, 1, 2:
+					subs = append(subs, hexsub("lcs", bufs[i%2], rng.Intn(5), a, b))
+				case 3:
+					subs = append(subs, hexsub("egf", bufs[rng.Intn(2)], rng.Intn(4), a, b))
+				default:
+					subs = append(subs, hexsub("d1", "-", 0, a, b))
+				}
+			}
+			r = 400
+		}
+		if tier == "thorough" {
+			r += r / 2
+		}
 		rng.Shuffle(len(subs), func(i, j int) { subs[i], subs[j] = subs[j], subs[i] })
 		line := fmt.Sprintf("conc %d %d %d%s", g, r, len(subs), strings.Join(subs, ""))
 		emit(line)
-		stat("gen:conc")
+		stat("gen:conc " + flavour)
 		if tier == "thorough" && c < 3 && c09FirstSeed() {
-			emit("race " + line)
+			// the detector needs no overlap in time (it works on the happens-before order): few goroutines and rounds
+			emit(fmt.Sprintf("race conc %d %d %d%s", 4, min(r, 3), len(subs), strings.Join(subs, "")))
 			stat("gen:race-replay")
 		}
 	}
@@ -436,6 +612,18 @@ func c09Race(inner string) (string, []Fail) {
 		}
 	}
 	stat("race-replay:done")
+	if res == "race-replay-failed" {
+		// the replay died before answering: the answers of the calls run alone come from this process
+		res, _ = c09ConcHere(strings.Fields(inner), false)
+		tail := strings.TrimSpace(stderr.String())
+		if k := strings.Index(tail, "fatal error:"); k >= 0 {
+			tail = tail[k:]
+		}
+		if len(tail) > 300 {
+			tail = tail[:300]
+		}
+		fails = append(fails, Fail{"race.crash", "the replay under the race detector died: " + strings.ReplaceAll(tail, "\n", " | ")})
+	}
 	// a report concerns this property when one of the two racing ACCESSES (innermost frame) lies in pkg/obialign
 	ours, other := 0, 0
 	var where []string
